@@ -454,7 +454,8 @@ def runOp (j : Json) : M Json := do
       setCas ci { c with nextXid := s.nextXid }
       pure (jOk (Json.mkObj [
         ("fs", jList (fun (p : Int × Nat) => Json.arr #[jInt p.1, jNat p.2]) s.allFs),
-        ("pops", jNat s.pops), ("pushes", jNat s.pushes), ("list_steps", jNat s.listSteps)]))
+        ("pops", jNat s.pops), ("pushes", jNat s.pushes), ("list_steps", jNat s.listSteps),
+        ("bound", jNat (seeds.length + Traverse.totalOut K ts { generateIds := gen, includeInlinable := inl } w.heap (w.heap.length + 1)))]))
   | _ => throw "bad-op"
 
 def runSession (ops : List Json) : List Json :=
